@@ -383,7 +383,7 @@ func (e *Engine) lemmaObligations() {
 			continue
 		}
 		o := &Obligation{Func: "lemma " + l.Name, Kind: "lemma", Tags: l.Tags, Clause: l.Src, Where: fmt.Sprintf("%s:%d", l.File, l.Line), Expect: "unsat"}
-		o.Query = e.queryPrefix(st) + "(assert (not " + v.T + "))\n"
+		o.Query = e.finishQuery(e.queryPrefix(st)+"(assert (not "+v.T+"))\n", false)
 		o.ID = fmt.Sprintf("lemma/%s/%d", l.Name, len(e.obls)+1)
 		e.obls = append(e.obls, o)
 	}
